@@ -234,6 +234,33 @@ func leanOperand(arch, mn, o string) string {
 	return ""
 }
 
+// vecWidth is the widest vector register named by the operands, in bytes (amd64: X=16, Y=32, Z=64;
+// arm64: by arrangement, B16/H8/S4/D2/Q1 = 16, B8/H4/S2/D1 = 8); 0 when no vector register occurs.
+func vecWidth(arch string, ops []string) int {
+	w := 0
+	upd := func(v int) {
+		if v > w {
+			w = v
+		}
+	}
+	reA64 := regexp.MustCompile(`V\d+\.([BHSDQ])(\d+)`)
+	for _, o := range ops {
+		if arch == "amd64" {
+			if len(o) >= 2 && (o[0] == 'X' || o[0] == 'Y' || o[0] == 'Z') {
+				if _, err := strconv.Atoi(o[1:]); err == nil {
+					upd(map[byte]int{'X': 16, 'Y': 32, 'Z': 64}[o[0]])
+				}
+			}
+			continue
+		}
+		for _, m := range reA64.FindAllStringSubmatch(o, -1) {
+			n, _ := strconv.Atoi(m[2])
+			upd(n * map[string]int{"B": 1, "H": 2, "S": 4, "D": 8, "Q": 16}[m[1]])
+		}
+	}
+	return w
+}
+
 func emitListing(arch, file, module string) {
 	funcs := runAsmListing(arch, file)
 	if len(funcs) == 0 {
@@ -263,7 +290,7 @@ func emitListing(arch, file, module string) {
 					// arm64 post-index memory "(R12)" with .P suffix mnemonic parses as mem
 					ops = append(ops, leanOperand(arch, in.mn, o))
 				}
-				fmt.Fprintf(&sb, "⟨%d, %q, [%s], %d⟩", in.pc, in.mn, strings.Join(ops, ", "), in.line)
+				fmt.Fprintf(&sb, "⟨%d, %q, [%s], %d, %d⟩", in.pc, in.mn, strings.Join(ops, ", "), in.line, vecWidth(arch, in.ops))
 			}
 			sb.WriteString("]\n\n")
 			nchunks++
